@@ -14,6 +14,7 @@ import (
 	"github.com/Azbesciak/RealDecisionMaker/lib/model"
 	"github.com/Azbesciak/RealDecisionMaker/lib/model/reference-criterion"
 	"github.com/Azbesciak/RealDecisionMaker/lib/utils"
+	"math"
 )
 
 func (p *CriteriaMixingParams) Spec_validate() {
@@ -138,6 +139,8 @@ func (c *criteriaToMix) Spec_mix(
 			panic(fmt.Errorf("criterion value for '%s' not found for alternative '%s'", c.c2, a))
 		}
 		value := c1Value*props.MixingRatio + c2Value*(1-props.MixingRatio)
+		// C18: "hence between the two rescaled components" - also after rounding
+		value = math.Max(math.Min(c1Value, c2Value), math.Min(math.Max(c1Value, c2Value), value))
 		resultValues[a] = value
 	}
 	return &mixResult{
